@@ -630,4 +630,112 @@ theorem quantCoord_within_step (n : Int64) : ((quantCoord n).toInt - n.toInt).na
   rw [quantCoord_toInt]
   rcases tdiv100 n.toInt with h | h <;> omega
 
+/-! ### the order across goroutines -/
+
+theorem shuffle_single {α : Type} {ss : List (List α)} {glob : List α} (k0 : Nat)
+    (h : Shuffle ss glob) (hothers : ∀ k s, k ≠ k0 → ss[k]? = some s → s = []) :
+    glob = (ss[k0]?).getD [] := by
+  induction h with
+  | @nil ss hall =>
+    cases hk : ss[k0]? with
+    | none => rfl
+    | some s => simp [hall s (List.mem_of_getElem? hk)]
+  | @cons ss k x rest out hk _ ih =>
+    have hk0 : k = k0 := by
+      by_cases hne : k = k0
+      · exact hne
+      · have := hothers k _ hne hk
+        cases this
+    subst hk0
+    have hlt : k < ss.length := (List.getElem?_eq_some_iff.mp hk).1
+    have := ih (by
+      intro k' s hne hs
+      rw [List.getElem?_set_ne (Ne.symm hne)] at hs
+      exact hothers k' s hne hs)
+    rw [this, hk]
+    simp [List.getElem?_set_self hlt]
+
+def streamOf (bs : List Block) (assign : List Nat) (k : Nat) : List Element :=
+  ((bs.zip assign).filter (fun p => p.2 == k)).flatMap (fun p => (readBlock {} p.1).out)
+
+theorem readCores_get (bs : List Block) (assign : List Nat) (g k : Nat) :
+    (readCores {} bs assign g)[k]? = if k < g then some (streamOf bs assign k) else none := by
+  unfold readCores streamOf
+  by_cases h : k < g
+  · simp [h]
+  · simp [h]
+
+theorem streamOf_all (bs : List Block) (assign : List Nat) (k : Nat) (hlen : assign.length = bs.length)
+    (hall : ∀ a ∈ assign, a = k) :
+    streamOf bs assign k = (bs.map fun b => (readBlock {} b).out).flatten := by
+  unfold streamOf
+  induction bs generalizing assign with
+  | nil => simp
+  | cons b bs ih =>
+    cases assign with
+    | nil => simp at hlen
+    | cons a as =>
+      have ha : a = k := hall a (by simp)
+      have := ih as (by simpa using hlen) (fun x hx => hall x (by simp [hx]))
+      simp [ha, this]
+
+theorem total_order_of_single (es : List Element) (g : Nat) (assign : List Nat) (glob : List Element)
+    (hlen : assign.length = (writeAll es).length) (hlt : ∀ a ∈ assign, a < g)
+    (hc : crossBlockClass g (writeAll es).length = false)
+    (hchunks : ((writeAll es).map fun b => (readBlock {} b).out).flatten = es.map quantise)
+    (h : Shuffle (readCores {} (writeAll es) assign g) glob) : glob = es.map quantise := by
+  generalize hbs : writeAll es = bs at *
+  simp only [crossBlockClass, Bool.and_eq_false_iff, decide_eq_false_iff_not, Nat.not_lt] at hc
+  rcases hc with hg | hb
+  · -- at most one goroutine
+    have hg' : g = 0 ∨ g = 1 := by omega
+    rcases hg' with rfl | rfl
+    · have hassign : assign = [] := by
+        cases assign with
+        | nil => rfl
+        | cons a as => exact absurd (hlt a (by simp)) (by omega)
+      subst hassign
+      have hbs0 : bs = [] := by simpa using hlen.symm
+      subst hbs0
+      have hglob := shuffle_single 0 h (by intro k s _ hs; simp [readCores] at hs)
+      have hq : es.map quantise = [] := by rw [← hchunks]; rfl
+      rw [hq]
+      simpa [readCores] using hglob
+    · have hall : ∀ a ∈ assign, a = 0 := fun a ha => by have := hlt a ha; omega
+      have := shuffle_single 0 h (by
+        intro k s hk hs
+        rw [readCores_get] at hs
+        have : ¬ k < 1 := by omega
+        simp [this] at hs)
+      rw [this, readCores_get]
+      simp [streamOf_all bs assign 0 hlen hall, hchunks]
+  · -- at most one block
+    match bs, hlen, hb with
+    | [], hlen, _ =>
+      have := shuffle_single 0 h (by
+        intro k s _ hs
+        rw [readCores_get] at hs
+        split at hs
+        · simp [streamOf] at hs; first | exact hs | exact hs.symm
+        · cases hs)
+      rw [this, readCores_get]
+      simp only [List.map_nil, List.flatten_nil] at hchunks
+      rw [← hchunks]
+      split <;> simp [streamOf]
+    | [b], hlen, _ =>
+      match assign, hlen with
+      | [a], _ =>
+        have ha : a < g := hlt a (by simp)
+        have := shuffle_single a h (by
+          intro k s hk hs
+          rw [readCores_get] at hs
+          split at hs
+          · have hne : (a == k) = false := by simpa using (Ne.symm hk)
+            simp [streamOf, hne] at hs; first | exact hs | exact hs.symm
+          · cases hs)
+        rw [this, readCores_get]
+        simp only [List.map_cons, List.map_nil, List.flatten_cons, List.flatten_nil, List.append_nil] at hchunks
+        simp [ha, streamOf, hchunks]
+    | _ :: _ :: _, _, hb => simp at hb
+
 end B6.Lemmas.Pbf
